@@ -3,9 +3,9 @@
 pub open spec fn sv_line_chars(sv: &SourceView, line: int) -> Seq<char> {
     if 0 <= line < sv_lines(sv).len() && valid_utf8(sv_lines(sv)[line]) { decode_utf8(sv_lines(sv)[line]) } else { Seq::empty() }
 }
-/// i is the first character boundary of cs at or after UTF-16 column col
+/// i is the first character boundary of cs at or after UTF-16 column col (the end of cs when there is none)
 pub open spec fn boundary_at(cs: Seq<char>, col: int, i: int) -> bool {
-    0 <= i <= cs.len() && cum16(cs.subrange(0, i)) >= col && (i > 0 ==> cum16(cs.subrange(0, i - 1)) < col)
+    0 <= i <= cs.len() && (i < cs.len() ==> cum16(cs.subrange(0, i)) >= col) && (i > 0 ==> cum16(cs.subrange(0, i - 1)) < col)
 }
 /// a UTF-16 column that is the start of a character of cs, or at / past the end of cs (never the second half of a surrogate pair)
 pub open spec fn aligned(cs: Seq<char>, col: int) -> bool {
